@@ -81,6 +81,45 @@ def gen_curves_record(rng, ncycles=None, grid=None, size='small', gaps=None, sha
                 grid_mm=grid, curvature=rng.choice([0.0, 1.0, 0.5, 2.25]), ref=None)
 
 
+# round numbers at which software reads / writes / allocates in blocks; a LONG master curve has more levels
+# than one of them and a number of levels that is no multiple of any
+BLOCK_SIZES = [1000, 1024, 2048, 4096, 8192, 10000]
+
+
+def gen_long_curves_record(rng, nlevels, shape=None, ncycles=None, scale=None, dyadic=None, rec=None):
+    """A saw-tooth record (gen_curves_record, no gaps) whose master rise AND recession curves have more
+    than `nlevels` levels each: the record is stretched in level by a power of two (`scale`: 1, 4, 16 -
+    a tall record: storms of hundreds of mm) and the water-level step of set-zeta-grid is chosen fine
+    enough for the span of levels the record covers (`dyadic`: a power of two, else a two-digit decimal such
+    as 0.037).  The caller measures the number of levels on the tables the real commands wrote and calls
+    again with `rec` = the record it got (then the step is halved, nothing else is drawn).
+
+    Uses only `rng` (hand it a stream of its own).  Same record format as gen_curves_record plus
+    `long` = dict(target, scale, span_mm)."""
+    if rec is not None:
+        rec = dict(rec, grid_mm=rec['grid_mm'] / 2)
+        return rec
+    rec = gen_curves_record(rng, ncycles=ncycles or rng.randrange(3, 6), size='small', gaps=0, shape=shape)
+    scale = scale or rng.choice([1, 1, 4, 16])
+    dyadic = rng.random() < 0.5 if dyadic is None else dyadic
+    rec['zeta'] = [z * scale for z in rec['zeta']]
+    # the curves cover most of the span of the record (the rises from the lowest storm foot to the highest
+    # peak, the recessions from the highest peak to the lowest trough)
+    span = max(rec['zeta']) - min(rec['zeta'])
+    want = nlevels * rng.uniform(1.04, 1.35)
+    if want % 8 < 1:          # stay clear of round counts
+        want += 3
+    step = 0.7 * span / want
+    if dyadic:
+        step = 2.0 ** math.floor(math.log2(step))
+    else:
+        e = math.floor(math.log10(step)) - 1
+        step = round(math.floor(step / 10.0 ** e) * 10.0 ** e, -e)
+    rec['grid_mm'] = step
+    rec['long'] = dict(target=nlevels, scale=scale, span_mm=span)
+    return rec
+
+
 TOPS = ['positive', 'surface', 'negative']
 
 
